@@ -32,6 +32,7 @@ type kvOp struct {
 
 type kvCase struct {
 	TableSize int      `json:"table_size"`
+	IdleNs    int64    `json:"idle_table_timeout_ns,omitempty"` // 0: default (15 min, recycled tables are never freed inside a case)
 	Keys      []string `json:"keys"`
 	Sizes     []int    `json:"sizes"` // value lengths
 	Ops       []kvOp   `json:"ops"`
@@ -55,9 +56,14 @@ type kvRunner struct {
 
 func kvHKey(i int) uint64 { return uint64(1000 + i*7919) }
 
-func newKVStore(tableSize int) *KVStore {
+func newKVStore(tableSize int) *KVStore { return newKVStoreIdle(tableSize, 0) }
+
+func newKVStoreIdle(tableSize int, idleNs int64) *KVStore {
 	c := DefaultConfig()
 	c.Add("tableSize", tableSize)
+	if idleNs > 0 {
+		c.Add("maxIdleTableTimeout", time.Duration(idleNs))
+	}
 	s, err := New(c)
 	if err != nil {
 		panic(err)
@@ -488,7 +494,7 @@ func (r *kvRunner) checkAll() *vcommon.Violation {
 
 // runKVCase executes a case; checkEvery=false checks only after the last step.
 func runKVCase(c *kvCase, checkEvery bool) (*vcommon.Violation, map[string]bool) {
-	r := &kvRunner{c: c, s: newKVStore(c.TableSize), model: map[int]*kvModelEntry{}, labels: map[string]bool{}}
+	r := &kvRunner{c: c, s: newKVStoreIdle(c.TableSize, c.IdleNs), model: map[int]*kvModelEntry{}, labels: map[string]bool{}}
 	for i, op := range c.Ops {
 		r.step = i
 		// non-triviality bookkeeping before the op changes the layout
@@ -566,6 +572,9 @@ func genKVCase(t *rapid.T, maxOps int, withScan bool) *kvCase {
 	ts := rapid.SampledFrom([]int{128, 160, 256, 512, 1024, 2048}).Draw(t, "tableSize")
 	nk := rapid.IntRange(2, 6).Draw(t, "keys")
 	c := &kvCase{TableSize: ts}
+	if rapid.IntRange(0, 2).Draw(t, "idle") == 0 {
+		c.IdleNs = 1 // recycled tables are freed by the next completed compaction
+	}
 	allKeys := []string{"a", "kb", "key-c", "p1", "xd", "a-long-key-name-e"}
 	c.Keys = allKeys[:nk]
 	c.Sizes = []int{rapid.IntRange(0, 8).Draw(t, "tiny"), ts/4 - 29, ts/2 - 29, ts/3 - 10}
